@@ -19,6 +19,7 @@ from harness.common import extract
 from harness.common.build import InfraError
 from harness.common.extract import NotRecognised, lean_bool, lean_list, lean_nat, lean_str
 from harness.props import c20_emul as E
+from harness.props import c20_expect as X
 from harness.props import c20_facts as T
 
 PROP = "C20"
@@ -427,7 +428,11 @@ def _baseline_doc_fields():
 
 CACHED_NAME, CACHED_PPID = "c20cached", 7
 REC_OF_MAP = {"kinfo_proc_map": 1, "pidtaskinfo_map": 2, "proc_info_map": 1, "pinfo_map": 1}
-SPECIAL_BARE = {"status", "terminal", "name"}
+# bare values that are a TRANSFORMATION of the slot (status code -> string, tty number -> device name, name slot overridden by
+# the stub): the slot-row comparison does not apply; their values are compared through c20_expect (SCALARS, STATUS_DOC sweep)
+TRANSFORMED_BARE = {"status", "terminal", "name"}
+DIRECT_NT = {"uids": "puids", "gids": "pgids", "cpu_times": "pcputimes", "num_ctx_switches": "pctxsw", "io_counters": "pio",
+             "memory_info": "pmem"}
 # values that do not come through a slot map: the order the C function documents for its tuple
 DIRECT_EXPECT = {
     ("sunos", "uids"): [["real", 3101], ["effective", 3102], ["saved", 3103]],
@@ -549,6 +554,10 @@ def run_fault(emu, c, with_trace=False):
     kw = {}
     if c.get("kind") == "fault2":
         kw = {"fault2_at": c["k2"], "err2": (dict(ERRNOS)[c["errno2"]], c["winerror2"])}
+    if c.get("probe_eperm") is not None:
+        # the decorator's own `os.kill(pid, 0)` probe (native call #probe_eperm of the faulted run) answers EPERM: the pid
+        # exists but belongs to somebody else — same world as `state`, so the same model / spec answer as the plain case
+        kw = {"fault2_at": c["probe_eperm"], "err2": (errno.EPERM, None)}
     obs, tr = emu.run(c["meth"], pid=c["pid"], fault_at=c["k"], err=(eno, c["winerror"]), state=c["state"],
                       pid0_listed=c["pid0"], sticky=c.get("sticky", False), name=CACHED_NAME, ppid=CACHED_PPID,
                       zcode=c.get("zcode"), **kw)
@@ -561,6 +570,59 @@ def run_fault(emu, c, with_trace=False):
     elif c.get("kind") == "fault2" and (len(tr) <= c["k2"] or tr[c["k2"]] != c["call2"]):
         out = {"k": "trace-drift", "trace": tr[:8]}
     return (out, tr) if with_trace else out
+
+
+def probe_eperm_cases(emu, cases):
+    """E4: single-fault cases (pid 42, process still there: zombie or alive, 'no such process' errno) whose faulted run goes
+    through an `os.kill(pid, 0)` probe afterwards × that probe raising EPERM"""
+    if emu.windows:
+        return
+    for c in cases:
+        if c["pid"] != 42 or c["state"] == "gone" or c["errno"] not in ("ESRCH", "ENOENT") or c["sticky"]:
+            continue
+        _, tr = run_fault(emu, c, with_trace=True)
+        ks = [i for i, n in enumerate(tr) if i > c["k"] and n == "os.kill"]
+        if ks:
+            yield dict(c, probe_eperm=ks[0])
+
+
+def status_cases(emu):
+    """status(): the status slot of the one-shot record swept over EVERY native code of the identity's PROC_STATUSES"""
+    if not hasattr(emu.mod, "PROC_STATUSES"):
+        return
+    tree = ast.parse(open(os.path.join(emu.pkg_dir, T.FAMILY_FILE[T.FAMILY[emu.ident]]), encoding="utf-8").read())
+    try:
+        codes = T.status_tables(emu, tree)[0]
+    except NotRecognised:
+        codes = sorted(X.STATUS_DOC.get(emu.ident, {}))
+    for code in sorted(set(codes) | set(X.STATUS_DOC.get(emu.ident, {}))):
+        yield {"kind": "status", "ident": emu.ident, "code": code}
+
+
+def run_status(emu, c):
+    if c["code"] not in emu.consts:
+        return {"kind": "no-such-native-constant"}
+    w = E.World(emu, 42, state="zombie", zcode=c["code"])     # the stub puts the named code into the status slot
+    w.switched = True
+
+    def call():
+        p = emu.mod.Process(42)
+        p._name, p._ppid = CACHED_NAME, CACHED_PPID
+        return p.status()
+    obs, _ = emu.call(call, world=w)
+    return obs
+
+
+def judge_status(emu, c, obs, res):
+    want = X.STATUS_DOC.get(emu.ident, {}).get(c["code"])
+    if want is None:
+        res.disagree("spec", c, obs, None, None, note="%s: native status code %s is in PROC_STATUSES but has no documented meaning "
+                     "(c20_expect.STATUS_DOC)" % (emu.ident, c["code"]))
+        return True
+    if obs.get("kind") != "value" or obs.get("value") != want:
+        res.disagree("spec", c, obs, None, want, note="%s status(): native code %s must be reported as %r" % (emu.ident, c["code"], want))
+        return True
+    return False
 
 
 def two_fault_cases(emu, cases, impls):
@@ -681,7 +743,7 @@ def check_value(emu, fam, meth, obs, rowsets, res, case):
                     for f, v in fl:
                         if f not in got or got[f] != v:
                             problem = "field %s = %r, expected %r (slot named for it)" % (f, got.get(f), v)
-        elif bare and meth not in SPECIAL_BARE and not meth.startswith("_"):
+        elif bare and meth not in TRANSFORMED_BARE and not meth.startswith("_"):
             if len(bare) == 1 and val != bare[0]:
                 problem = "value %r, expected %r" % (val, bare[0])
         if problem:
@@ -738,11 +800,24 @@ def judge_value(emu, c, obs, rows, res):
                 return True
             return False
         return check_value(emu, fam, meth, obs, rows[meth + "@rows"], res, c)
+    # every method has an expected value (per-item tuples by hand from the native item layout, the rest a reviewed literal)
+    found, want = X.expected(emu.ident, meth)
+    if not found:
+        res.disagree("spec", c, obs, None, None,
+                     note="%s %s(): no expected value for this method (harness/props/c20_expect.py) — a new public method must get one"
+                     % (emu.ident, meth))
+        return True
+    if obs["kind"] != "value" or obs.get("value") != want:
+        res.disagree("spec", c, obs, None, want, note="%s %s(): returned value differs from the expected one "
+                     "(native answer laid out in the documented namedtuple, field by field)" % (emu.ident, meth))
+        return True
+    res.count("values:expected-value-compared")
     direct = DIRECT_EXPECT.get((fam, meth))
     if direct is not None:
         val = obs.get("value")
-        if not (obs["kind"] == "value" and isinstance(val, dict) and val.get("fields") == direct):
-            res.disagree("spec", c, obs, None, direct, note="%s %s(): fields are not in the order the native tuple documents" % (emu.ident, meth))
+        if not (obs["kind"] == "value" and isinstance(val, dict) and val.get("fields") == direct and val.get("nt") == DIRECT_NT[meth]):
+            res.disagree("spec", c, obs, None, {"nt": DIRECT_NT[meth], "fields": direct},
+                         note="%s %s(): not the documented namedtuple type, or fields not in the order the native tuple documents" % (emu.ident, meth))
             return True
     rs = rows.get(meth + "@rows")
     if rs and (rs["model"] or rs["spec"]):
@@ -778,8 +853,23 @@ def netif_cases(emu, rng, n_random):
         ip = rng.randrange(0, 2 ** 32)
         b = None if emu.windows else ((ip | (2 ** (32 - plen) - 1)) if rng.random() < 0.7 else None)
         out.append({"fam": "inet", "mac": "", "ip": ip, "plen": plen, "bcast": b})
-    out.append({"fam": "inet6", "mac": "", "ip": 0, "plen": None, "bcast": None})
+    # AF_INET6 (the statement names it): netmask = prefix length, every length for one address, a few for others
+    ip6 = [0xfe800000000000000000000000000001, 0x20010db8000000000000abcd12345678, 0, 2 ** 128 - 1]
+    for ip in ip6:
+        out.append({"fam": "inet6", "mac": "", "ip": ip, "plen": None, "bcast": None})
+    for plen in range(0, 129):
+        out.append({"fam": "inet6", "mac": "", "ip": ip6[1], "plen": plen, "bcast": None})
+    for ip in (ip6[0], ip6[2], ip6[3]):
+        for plen in (0, 1, 7, 64, 127, 128):
+            out.append({"fam": "inet6", "mac": "", "ip": ip, "plen": plen, "bcast": None})
+    for _ in range(n_random // 4):
+        out.append({"fam": "inet6", "mac": "", "ip": rng.randrange(0, 2 ** 128), "plen": rng.randrange(0, 129), "bcast": None})
     return [dict(c, kind="netif", ident=emu.ident) for c in out]
+
+
+def text6(n):
+    import ipaddress
+    return str(ipaddress.IPv6Address(n))
 
 
 def run_netif(emu, c):
@@ -790,7 +880,8 @@ def run_netif(emu, c):
         mask = None if c["plen"] is None else dotted((2 ** 32 - 1) ^ (2 ** (32 - c["plen"]) - 1))
         raw = ("nic0", int(socket.AF_INET), dotted(c["ip"]), mask, None if c["bcast"] is None else dotted(c["bcast"]), None)
     else:
-        raw = ("nic0", int(socket.AF_INET6), "fe80::1", None, None, None)
+        raw = ("nic0", int(socket.AF_INET6), text6(c["ip"]), None if c["plen"] is None else str(c["plen"]),
+               None if c["bcast"] is None else text6(c["bcast"]), None)
     emu.netif_raw = [raw]
     obs, tr = emu.call(emu.pkg.net_if_addrs)
     if obs["kind"] != "value":
@@ -819,8 +910,8 @@ def judge_netif(emu, c, impl, m, res):
             w["address"] = dotted(c["ip"])
             w["broadcast"] = None if m[side]["bcast"] is None else dotted(m[side]["bcast"])
         else:
-            w["address"] = "fe80::1"
-            w["broadcast"] = None
+            w["address"] = text6(c["ip"])
+            w["broadcast"] = None if m[side]["bcast"] is None else text6(m[side]["bcast"])
         return w
     for side, kind in (("spec", "spec"), ("model", "model")):
         w = want(side)
@@ -1389,6 +1480,13 @@ def judge_front2(emu, c, obs, m, res):
 
 # ---- documented namedtuple fields
 
+# (identity, api) whose PLATFORM-layer method hands back another type than the documented one because the FRONT END builds the
+# documented type from it (listed one by one; anything else returning a differently named tuple is a disagreement)
+# memory_full_info(): "returns the same information as memory_info(), plus, on some platform (Linux, macOS, Windows), also
+# provides additional metrics" (docs/index.rst) — on the BSDs, Solaris and AIX it IS memory_info() (`pmem`); the doc example
+# (`pfullmem`) is the Linux one
+DOC_TYPE_DIFFERS = {(i, "Process.memory_full_info") for i in ("freebsd", "openbsd", "netbsd", "sunos", "aix")}
+
 
 def judge_api_fields(emu, m, res):
     bad = False
@@ -1415,7 +1513,12 @@ def judge_api_fields(emu, m, res):
             v = obs.get("value")
             if isinstance(v, list) and v:
                 v = v[0]
-            if obs["kind"] == "value" and isinstance(v, dict) and v.get("nt") == row["nt"]:
+            if obs["kind"] == "value" and isinstance(v, dict) and "nt" in v and v.get("nt") != row["nt"] \
+                    and (emu.ident, row["api"]) not in DOC_TYPE_DIFFERS:
+                res.disagree("spec", {"kind": "apifields", "ident": emu.ident, "api": row["api"]}, v.get("nt"), None, row["nt"],
+                             note="the method returns a namedtuple of another type than the documented one")
+                bad = True
+            elif obs["kind"] == "value" and isinstance(v, dict) and v.get("nt") == row["nt"]:
                 res.count("api-fields:live-tuple")
                 names = [f for f, _ in v["fields"]]
                 if names != live:
@@ -1454,6 +1557,7 @@ def correspond(ctx, res):
     for ident in E.IDENTS:
         emu = emus[ident]
         cases = list(fault_cases(emu, ctx.tier))
+        cases += list(probe_eperm_cases(emu, cases))
         impls = [run_fault(emu, c) for c in cases]
         for part_c, part_i in zip(_chunks(cases, 20000), _chunks(impls, 20000)):
             outs = ctx.driver().batch([fault_line(c) for c in part_c])
@@ -1461,6 +1565,8 @@ def correspond(ctx, res):
             for c, impl, m in zip(part_c, part_i, outs):
                 total_fault += 1
                 res.count("platform:" + ident)
+                if c.get("probe_eperm") is not None:
+                    res.count("family:probe-kill-eperm")
                 res.count("errno:" + c["errno"])
                 res.count("state:" + c["state"])
                 if c["pid"] == 0:
@@ -1525,6 +1631,12 @@ def correspond(ctx, res):
             res.case(("value", ident, c["meth"], c["fallback"]), nontrivial=has_rows or (fam, c["meth"]) in DIRECT_EXPECT,
                      sample={"case": c, "impl": obs} if (ident, c["meth"]) == ("freebsd", "cpu_times") else None)
             judge_value(emu, c, obs, rows, res)
+        for c in status_cases(emu):
+            obs = run_status(emu, c)
+            res.count("family:status-codes")
+            res.case(("status", ident, c["code"]), nontrivial=True,
+                     sample={"case": c, "impl": obs} if (ident, c["code"]) == ("openbsd", "SDEAD") else None)
+            judge_status(emu, c, obs, res)
         front_end_pass(emu, res)
     # ---------------- net_if_addrs
     for ident in E.IDENTS:
@@ -1537,6 +1649,7 @@ def correspond(ctx, res):
                 raise InfraError("driver rejected netif query: %s" % m)
             impl = run_netif(emu, c)
             res.count("family:net_if_addrs")
+            res.count("netif:" + c["fam"] + (":netmask" if c["plen"] is not None else ""))
             res.case(("netif", ident, c["fam"], c["mac"], c["ip"], c["plen"], c["bcast"]),
                      nontrivial=(c["fam"] == "link" or (emu.windows and c["plen"] is not None)),
                      sample={"case": c, "impl": impl} if (ident == "windows" and c["plen"] == 24 and c["ip"] == 0xC0A8010A) else None)
@@ -1618,6 +1731,8 @@ def _rerun(ctx, inp, res):
             rows[mname + "@rows"] = o
             rows[mname] = o["spec"]
         return judge_value(emu, inp, run_value(emu, inp), rows, res) and res.disagreements[-1]["kind"] == "spec"
+    if kind == "status":
+        return judge_status(emu, inp, run_status(emu, inp), res)
     if kind == "netif":
         m = ctx.driver().batch([netif_line(emu, inp)])[0]
         return judge_netif(emu, inp, run_netif(emu, inp), m, res) and res.disagreements[-1]["kind"] == "spec"
